@@ -645,9 +645,8 @@ class Nodes:
             if lower_value in ("true", "false"):
                 cased_value = str(value).title()
             typed_value = literal_eval(cased_value)
-        except ValueError:
-            typed_value = value
-        except SyntaxError:
+        except (ValueError, SyntaxError, TypeError, MemoryError,
+                RecursionError):
             typed_value = value
         return typed_value
 
